@@ -835,7 +835,7 @@ qb_rb_create_from_file(int32_t fd, uint32_t flags)
 	n_read = read(fd, &read_pt, sizeof(uint32_t));
 	assert(n_read == sizeof(uint32_t));
 	total_read += n_read;
-	if (write_pt > st.st_size || read_pt > st.st_size) {
+	if (write_pt >= word_size || read_pt >= word_size) {
 		qb_util_perror(LOG_ERR, "Invalid pointers read from blackbox header");
 		return NULL;
 	}
